@@ -137,3 +137,64 @@ Proof.
     + right. vm_compute. discriminate.
   - vm_compute. eexists. eexists. repeat split; reflexivity.
 Qed.
+
+(* The full statement is FALSE of the faithful model in two respects (known findings), with
+   witnesses.  K_C05_multi_template: a template set carrying two template records (256 = [8/4],
+   257 = [12/4]) is decoded as ONE template 256 with three fields, the second record's id and
+   count being read as a field specifier (257, length 1).  K_C05_signed_wide: the 8-byte signed
+   value 2^32 is reported as 0. *)
+Theorem C05_refuted :
+  (exists t, parse_itemplate [x01; x00; x00; x01; x00; x08; x00; x04;  x01; x01; x00; x01; x00; x0c; x00; x04] = Ok t []
+             /\ it_id t = 256%N /\ length (it_fields t) = 3%nat)
+  /\ from_field_type true DSigned 8 [x00; x00; x00; x01; x00; x00; x00; x00] = Ok (VNum (I32 0)) [].
+Proof. split; [eexists; vm_compute; repeat split; reflexivity|vm_compute; reflexivity]. Qed.
+Print Assumptions C05_refuted.
+
+(* ---- buffer level (imports kept local: they shadow names used above) ---- *)
+From NF Require Import Parser V9 V9Stream StreamFacts BufferFacts ExampleFacts.
+
+(* the whole buffer across packets and protocols (same statement as C04_buffer) *)
+Theorem C05_buffer : forall puf allow s ps ex,
+  allow 9%N = true -> allow 10%N = true -> expect_pkts puf s ps ex ->
+  parse_bytes puf allow s (enc_pkts s ps ex) = Some ex.
+Proof. exact decode_buffer. Qed.
+Print Assumptions C05_buffer.
+
+(* non-vacuity of C04_buffer / C05_buffer: the V9 packet of C04_packet_example followed, in the
+   same buffer, by the IPFIX message of C05_message_example meets the hypotheses from the empty
+   state under the default allowed set; two elements are expected *)
+Example C05_buffer_example :
+  let t1 := {| t_id := 256; t_count := 2;
+               t_fields := [ {| tf_num := 8; tf_type := v9_from_u16 8; tf_len := 4 |};
+                             {| tf_num := 7; tf_type := v9_from_u16 7; tf_len := 2 |} ] |}%N in
+  let t2 := {| t_id := 257; t_count := 1;
+               t_fields := [ {| tf_num := 1; tf_type := v9_from_u16 1; tf_len := 3 |} ] |}%N in
+  let l9 := [ FTemplates [t1; t2];
+              FData 256 [ [[x0a; x00; x00; x01]; [x01; xbb]]; [[x0a; x00; x00; x02]; [x00; x35]] ] [];
+              FData 257 [ [[xff; x00; x01]] ] [x00] ]%N in
+  let f1 := {| if_num := 100; if_type := ipfix_enterprise; if_len := 65535; if_ent := Some 9 |}%N in
+  let f2 := {| if_num := 7; if_type := ipfix_from_u16 7; if_len := 2; if_ent := None |}%N in
+  let f3 := {| if_num := 4; if_type := ipfix_from_u16 4; if_len := 1; if_ent := None |}%N in
+  let t := {| it_id := 256; it_count := 2; it_fields := [f1; f2]; it_pad := [] |}%N in
+  let o := {| io_id := 257; io_count := 2; io_scope_count := 1; io_fields := [f3; f2]; io_pad := [x00; x00] |}%N in
+  let lx := [ STemplate t; SOTemplate o;
+              SData 256 [ [(false, [x61; x62; x63]); (false, [x00; x50])];
+                          [(true, []); (false, [x01; xbb])];
+                          [(false, [x7a]); (false, [x00; x35])] ] [x00];
+              SData 257 [ [(false, [x06]); (false, [x00; x16])] ] [] ]%N in
+  let ps := [ PktV9 [9; 3; 1; 2; 3; 4]%N l9;
+              PktIx [10; 16 + lenN (enc_isets ix_empty lx); 1; 2; 3]%N lx ] in
+  allow_list default_allowed 9%N = true /\ allow_list default_allowed 10%N = true /\
+  exists ex, expect_pkts true empty_state ps ex /\ length ex = 2%nat.
+Proof.
+  cbv zeta. split; [reflexivity|]. split; [reflexivity|].
+  pose proof ex_v9_packet as H9. cbv zeta in H9. destruct H9 as [H9 _].
+  pose proof ex_ix_message as Hx. cbv zeta in Hx. destruct Hx as [Hx _].
+  eexists ((_, _) :: (_, _) :: nil). split; [|reflexivity]. cbn [expect_pkts].
+  split; [|split].
+  - cbn [conformant_pkt empty_state st9]. split; [vm_compute; repeat split; reflexivity|]. split; [reflexivity|exact H9].
+  - vm_compute. reflexivity.
+  - split; [|split; [|exact I]].
+    + cbn [conformant_pkt stx]. split; [vm_compute; repeat split; reflexivity|]. split; [reflexivity|exact Hx].
+    + vm_compute. reflexivity.
+Qed.
